@@ -1,6 +1,15 @@
 open Model
 open Common
 
+let parse_indices (s : string) : nat list =
+  if s = "-" then [] else List.map (fun x -> nat_of_int (int_of_string x)) (String.split_on_char ',' s)
+
+let show_tres = function
+  | TOk o -> "OK " ^ hex_of_zlist o
+  | TAbort -> "ABORT"
+  | TFuel -> "FUEL"
+  | TUsage -> "USAGE"
+
 let () =
   iter_lines (fun line ->
       match split_ws line with
@@ -18,4 +27,10 @@ let () =
       | "R" :: rest ->
         let bs = zlist_of_hex (match rest with [h] -> h | _ -> "") in
         print_endline ("OK " ^ hex_of_zlist (rfc4648 bs))
+      | "TD" :: delim :: idx :: rest ->
+        let inp = zlist_of_hex (match rest with [h] -> h | _ -> "") in
+        print_endline (show_tres (decode_tool (z_of_int (int_of_string delim)) (parse_indices idx) inp))
+      | "TE" :: delim :: idx :: rest ->
+        let inp = zlist_of_hex (match rest with [h] -> h | _ -> "") in
+        print_endline (show_tres (encode_tool (z_of_int (int_of_string delim)) (parse_indices idx) inp))
       | _ -> print_endline "?")
